@@ -129,7 +129,10 @@ def policy(sp):
             return 1, 1e-3
         return 0, 1e-3
     # beyond n iterations the exact-arithmetic iteration has terminated and the vectors are rounding noise
-    if full_ok(sp) or (eff <= 6 and (eff <= sp["n"] or sp["kappa"] <= 1e4)):
+    # (measured: on a clustered kappa=1e4 spectrum the search directions of model and implementation differ by
+    #  4e-16 after 2, 1e-12 after 3 and 4e-5 (relative) after 5 iterations - summation order amplified by the
+    #  residual reduction; so whole trajectories are only compared where exact and float arithmetic stay together)
+    if full_ok(sp) or eff <= 2:
         return 1, 1e-9
     return 0, 1e-9
 
